@@ -18,6 +18,7 @@ Time: the wheel's `time` moves only with `tick` (one unit per tick); the heap's 
 import Fatchoy.Lemmas.C05Ex
 import Fatchoy.Lemmas.C05Dues
 import Fatchoy.Lemmas.C05BinHeapEx
+import Fatchoy.Lemmas.C05Tr
 namespace Fatchoy.C05
 
 /-- the regenerated constants are exactly the geometry the proofs are carried out for
@@ -460,5 +461,69 @@ example (r : BS × List Out) (h : BS.runO geom (BS.init 1000) [.after 3, .every 
   have := C05_binheap_refines_sorted geom 1000 [.after 3, .every 2, .add, .add, .clock 2, .tick]
   rw [h] at this
   exact ⟨this.2.1, this.2.2.2.1⟩
+
+/-! ### The translated source (Gen/C05.lean, `namespace Tr`, rewritten from hhwheel_timer.go on every run) equals the
+wheel model's placement arithmetic (Model/C05Wheel.lean on the literal geometry), for all inputs. -/
+section Translated
+open Fatchoy.Gen.C05
+set_option linter.unusedSimpArgs false
+
+/-- the model's `place` (the if-chain of `addNode` on the literal 8+6+6+6+6 geometry) is the chain built from the
+translated pieces: expiry tick `addNode_idx`, the four level conditions and the five slot expressions; for every
+position and every clamped tick count -/
+theorem C05_tr_place (cap : Nat) (cur : BitVec 32) (t : BitVec 64) (h : t.toNat ≤ 4294967295) :
+    place (litGeom cap) cur.toNat t.toNat =
+      (let idx := Tr.addNode_idx cur t
+       if Tr.addNode_c0 t then (0, (Tr.addNode_s0 idx).toNat)
+       else if Tr.addNode_c1 t then (1, (Tr.addNode_s1 idx).toNat)
+       else if Tr.addNode_c2 t then (2, (Tr.addNode_s2 idx).toNat)
+       else if Tr.addNode_c3 t then (3, (Tr.addNode_s3 idx).toNat)
+       else (4, (Tr.addNode_s4 idx).toNat)) := by
+  have ht : t.toNat < 2 ^ 63 := by omega
+  have hidx : (Tr.addNode_idx cur t).toNat = (cur.toNat + t.toNat) % 4294967296 := by
+    simp (disch := omega) [Tr.addNode_idx, BitVec.toNat_add, Nat.mod_eq_of_lt, Nat.add_comm] <;> ac_rfl
+  have c0 := slt_small t 256#64 ht (by decide)
+  have c1 := slt_small t 16384#64 ht (by decide)
+  have c2 := slt_small t 1048576#64 ht (by decide)
+  have c3 := slt_small t 67108864#64 ht (by decide)
+  simp only [Tr.addNode_c0, Tr.addNode_c1, Tr.addNode_c2, Tr.addNode_c3, c0, c1, c2, c3]
+  simp [place, litGeom, placeAux, Nat.not_lt.mpr h, Tr.addNode_s0, Tr.addNode_s1, Tr.addNode_s2, Tr.addNode_s3,
+    Tr.addNode_s4, hidx, and63, and63', and255, and255', Nat.shiftRight_eq_div_pow]
+
+/-- the two clamp tests of `addNode`: below zero (signed), and above the model's `maxTicks` -/
+theorem C05_tr_clamp (cap : Nat) (t : BitVec 64) :
+    Tr.addNode_neg t = decide (t.toInt < 0) ∧
+    (0 ≤ t.toInt → Tr.addNode_over t = decide (t.toNat > (litGeom cap).maxTicks)) := by
+  constructor
+  · rw [Bool.eq_iff_iff]; simp [Tr.addNode_neg, BitVec.slt]
+  · intro h
+    have ht : t.toNat < 2 ^ 63 := by
+      have := BitVec.toInt_eq_toNat_cond t
+      have := t.isLt
+      split at * <;> omega
+    have c := slt_small 4294967295#64 t (by decide) ht
+    simp [Tr.addNode_over, c, litGeom]
+
+/-- the index arithmetic of `shiftWheels` is the model's `shift` / `shiftLoop` arithmetic: wrap test of the near wheel,
+first `ticks`, the slot that comes up at a level, `ticks` of the next level -/
+theorem C05_tr_shift (cap : Nat) (ct tk : BitVec 32) :
+    Tr.shift_skip ct = decide (ct.toNat % (litGeom cap).nearSize ≠ 0) ∧
+    (Tr.shift_ticks ct).toNat = ct.toNat / (litGeom cap).nearSize ∧
+    (Tr.shift_slot tk).toNat = tk.toNat % (litGeom cap).lvlSize ∧
+    (Tr.shift_next tk).toNat = tk.toNat / (litGeom cap).lvlSize := by
+  refine ⟨?_, ?_, ?_, ?_⟩
+  · rw [Bool.eq_iff_iff]
+    simp only [decide_eq_true_eq]
+    simp [Tr.shift_skip, litGeom, bne_iff_ne, BitVec.toNat_eq, and255, and255']
+  · simp [Tr.shift_ticks, litGeom, Nat.shiftRight_eq_div_pow]
+  · have := tk.isLt
+    simp (disch := omega) [Tr.shift_slot, litGeom, and63, and63', Nat.mod_eq_of_lt]
+  · simp [Tr.shift_next, litGeom, Nat.shiftRight_eq_div_pow]
+
+/-- test (samples, not a proof): tick 300 from position 4294967290 wraps to expiry tick 294 = slot 1 of level 1 -/
+example : Tr.addNode_idx 4294967290#32 300#64 = 294#32 ∧ Tr.addNode_c0 300#64 = false ∧ Tr.addNode_c1 300#64 = true ∧
+    Tr.addNode_s1 294#32 = 1#32 ∧ place (litGeom 1) 4294967290 300 = (1, 1) := by decide
+
+end Translated
 
 end Fatchoy.C05
